@@ -411,14 +411,16 @@ pub struct SimDisk {
     pub store: Shared,
     pub pos: u64,
     pub io: IoH,
+    /// called before every read/seek/write (a scheduling point when a model scheduler owns the threads)
+    pub yield_hook: Option<Arc<dyn Fn() + Send + Sync>>,
 }
 
 impl SimDisk {
     pub fn new(store: Shared, policy: Policy) -> SimDisk {
-        SimDisk { store, pos: 0, io: ioh(policy) }
+        SimDisk { store, pos: 0, io: ioh(policy), yield_hook: None }
     }
     pub fn with_io(store: Shared, io: IoH) -> SimDisk {
-        SimDisk { store, pos: 0, io }
+        SimDisk { store, pos: 0, io, yield_hook: None }
     }
     pub fn pure(v: &[u8]) -> SimDisk {
         SimDisk::new(shared_from(v), Policy::Pure)
@@ -439,7 +441,7 @@ impl Clone for SimDisk {
         };
         let io = ioh(policy);
         set_budget(&io, budget);
-        SimDisk { store: self.store.clone(), pos: self.pos, io }
+        SimDisk { store: self.store.clone(), pos: self.pos, io, yield_hook: self.yield_hook.clone() }
     }
 }
 
@@ -449,6 +451,9 @@ fn err(k: EK) -> io::Error {
 
 impl Read for SimDisk {
     fn read(&mut self, buf: &mut [u8]) -> io::Result<usize> {
+        if let Some(h) = &self.yield_hook {
+            h();
+        }
         let req = buf.len() as u64;
         let (call, d) = {
             let mut io = lock(&self.io);
@@ -528,6 +533,9 @@ impl Write for SimDisk {
 
 impl Seek for SimDisk {
     fn seek(&mut self, to: SeekFrom) -> io::Result<u64> {
+        if let Some(h) = &self.yield_hook {
+            h();
+        }
         let (call, d) = {
             let mut io = lock(&self.io);
             let c = io.calls;
